@@ -462,6 +462,12 @@ def check(fx, rep, tier):
             n7 += 1
             stores = [(blk, i_, s_) for blk, i_, s_ in b.iter_assigns() if (mir.place_last_field(s_['place']) or (None, None))[1] == 'continues']
             ok = len(stores) == 1 and stores[0][2]['rv']['k'] == 'use' and b.trace(stores[0][2]['rv']['op']).get('kind') == 'arg'
+            if not ok and not stores:
+                # `Self { continues, ..self }`
+                aggrs = [s_ for blk, i_, s_ in b.iter_assigns() if s_['rv']['k'] == 'aggr' and 'reply::Reply' in (s_['rv'].get('adt') or '') and 'continues' in (s_['rv'].get('fields') or [])]
+                if len(aggrs) == 1:
+                    op_ = aggrs[0]['rv']['ops'][aggrs[0]['rv']['fields'].index('continues')]
+                    ok = b.trace(op_).get('kind') == 'arg'
             rep.check(ok, 'R20.7', 'reply::Reply::set_continues|stores-argument', b.where(),
                       'set_continues stores its argument into the continues member', 'Reply::set_continues does not store the flag it is given unchanged: a one-shot reply '
                       'built with Some(false) (or a state reply built with Some(true)) goes out with a different marking')
